@@ -138,7 +138,7 @@ Theorem defaults_coherent : forall sec opt raw name secs ps d,
   In (sec, opt, raw) all_options -> In (name, (secs, ps)) entry_points ->
   existsb (String.eqb sec) secs = true -> alookup opt ps = Some d ->
   dval_matches d (expected sec opt raw) = true.
-Proof. exact defaults_coherent. Qed.
+Proof. exact (defaults_coherent_of_check (@eq_refl bool true <: forallb option_coherent all_options = true)). Qed.
 Print Assumptions defaults_coherent.
 
 Example defaults_coherent_ex : In ("conformer_generation", "compress", "2")%string all_options /\
@@ -150,25 +150,24 @@ Proof. vm_compute. repeat split; try reflexivity. tauto. Qed.
 
 (* the model's parser reads the packaged file exactly as Python's ConfigParser does *)
 Theorem defaults_file_parsed : parse_file defaults_cfg_text = Ok defaults_cfg_parsed.
-Proof. exact defaults_file_parsed. Qed.
+Proof. exact (@eq_refl _ (Ok defaults_cfg_parsed) <: parse_file defaults_cfg_text = Ok defaults_cfg_parsed). Qed.
 Print Assumptions defaults_file_parsed.
 
 Theorem defaults_sections : map fst defaults_cfg_parsed = ["preprocessing"; "conformer_generation"; "fingerprinting"]%string.
-Proof. exact defaults_sections. Qed.
+Proof. exact (@eq_refl _ ["preprocessing"; "conformer_generation"; "fingerprinting"]%string <: map fst defaults_cfg_parsed = ["preprocessing"; "conformer_generation"; "fingerprinting"]%string). Qed.
 Print Assumptions defaults_sections.
 
 (* every value of the packaged file is a scalar the classifier decides *)
 Theorem defaults_classified : forallb (fun o => scalar_cls (classify (snd o))) all_options = true.
-Proof. exact defaults_classified. Qed.
+Proof. exact (@eq_refl bool true <: forallb (fun o => scalar_cls (classify (snd o))) all_options = true). Qed.
 Print Assumptions defaults_classified.
 
 (* the only documented option that no entry point of its section accepts *)
-Theorem defaults_orphans :
-  map (fun o => (fst (fst o), snd (fst o))) (filter (fun o => negb (covered o)) all_options) = [("preprocessing", "protonate")]%string.
-Proof. exact defaults_orphans. Qed.
+Theorem defaults_orphans : orphans = [("preprocessing", "protonate")]%string.
+Proof. exact (@eq_refl _ [("preprocessing", "protonate")]%string <: orphans = [("preprocessing", "protonate")]%string). Qed.
 Print Assumptions defaults_orphans.
 
 (* the interpreter's int<->str digit limit is the one the model uses *)
 Theorem int_limit_current : py_int_max_str_digits = max_str_digits.
-Proof. exact int_limit_current. Qed.
+Proof. exact (@eq_refl Z max_str_digits <: py_int_max_str_digits = max_str_digits). Qed.
 Print Assumptions int_limit_current.
